@@ -364,7 +364,7 @@ fn c10_parent(args: &Args) {
     let scenarios = if e2_only_requested { 0 } else { scenarios };
     if e2_only_requested {
         exec::REFERENCE_VIA_BINARY.store(true, std::sync::atomic::Ordering::SeqCst);
-        println!("NOTE: C10 runs in E2-only mode (the hooks-on build of the current tree is not available): shipped binary, real threads and pipes, stand-in prover; reference emissions come from the binary");
+        println!("NOTE: C10 runs in E2-only mode (the in-process engine is not available for this tree): shipped binary, real threads and pipes, stand-in prover; reference emissions come from the binary");
     }
     println!("C10 tier={tier_name} seed={seed} workers={workers} scenarios={scenarios} (per-scenario seed = mix(seed, index); wall cap {deadline}s)");
 
